@@ -116,6 +116,8 @@ func pureOp(f []string) (out string) {
 		return "ok:" + hx(d)
 	case "parse", "parse2":
 		return pureParse(mustUnhx(f[1]))
+	case "parsel":
+		return pureParseWith(mustUnhx(f[1]), true)
 	case "bech32":
 		a, err := sdk.AccAddressFromBech32(mustUnhx(f[1]))
 		if err != nil {
@@ -300,11 +302,32 @@ func canonPayload(p *core.Payload) string {
 	return sb.String()
 }
 
-func pureParse(memo string) string {
-	parser, err := adapterctrl.NewIBCParser(getPureCdc())
-	if err != nil {
-		return "bad-op"
+// the parser a node keeps for its whole life (parsel), against a fresh one per memo (parse)
+var longLivedParser *adapterctrl.IBCParser
+
+func pureParseWith(memo string, longLived bool) string {
+	var parser *adapterctrl.IBCParser
+	var err error
+	if longLived {
+		if longLivedParser == nil {
+			longLivedParser, err = adapterctrl.NewIBCParser(getPureCdc())
+			if err != nil {
+				return "bad-op"
+			}
+		}
+		parser = longLivedParser
+	} else {
+		parser, err = adapterctrl.NewIBCParser(getPureCdc())
+		if err != nil {
+			return "bad-op"
+		}
 	}
+	return pureParseOn(parser, memo)
+}
+
+func pureParse(memo string) string { return pureParseWith(memo, false) }
+
+func pureParseOn(parser *adapterctrl.IBCParser, memo string) string {
 	p, err := parser.Parse(memo)
 	if err != nil {
 		return "err:p"
